@@ -290,11 +290,10 @@ def run(ctx):
             continue
         nst += 1
         pre = p.tests_before(si)
-        have = {norm(t): pol for t, pol in pre}
-        if have.get("name in self.locs.keys()") is not False:
+        if not P.has_test(p, "name in self.locs.keys()", False, upto=si):
             bad = (p, "name uniqueness test does not dominate the store")
             break
-        if have.get("n in self.locs.values()") is not False:
+        if not P.has_test(p, "n in self.locs.values()", False, upto=si):
             bad = (p, "number uniqueness test does not dominate the store")
             break
         alloc = any(e[0] == "stmt" and P.is_call_to(e, "alloc") and isinstance(e[1], ast.Assign) and
